@@ -116,7 +116,7 @@ OTHER_TARGETS = {"fastq": [".fa", ".fasta"], "fasta2": [".fq"]}
 
 
 def gen_program(ctx, fd, n_chunks_rows, max_ops, allow_replace=True, allow_write=True, formats_no_replace=(),
-                allow_item=True, allow_other_target=False):
+                allow_item=True, allow_other_target=False, allow_setctx=False):
     """ops over the variables; n_chunks_rows = rows per initial chunk (model side knows the chunking)"""
     tape = ctx.tape
     fmt = T.FORMATS[fd["format"]]
@@ -166,6 +166,10 @@ def gen_program(ctx, fd, n_chunks_rows, max_ops, allow_replace=True, allow_write
                 ops.append({"op": "len", "src": src})
             else:
                 ops.append({"op": "item", "src": src, "i": tape.draw(n, "op.i")})
+        elif op == "len" and allow_setctx and fmt.header and tape.boolean("op.setctx", 1, 2):
+            # explicit assignment of a header to ONE table (set_context): like attribute assignment it may change its
+            # target and nothing else (derived tables and their parents each own their header context)
+            ops.append({"op": "setctx", "src": src})
         elif op == "write" and allow_other_target and fmt.name in OTHER_TARGETS and tape.boolean("op.other_target", 1, 3):
             tg = OTHER_TARGETS[fmt.name]
             ops.append({"op": "write", "src": src, "target": tg[tape.draw(len(tg), "op.target")]})
@@ -331,6 +335,15 @@ class World:
         if k == "setattr":
             def f():
                 setattr(src, op["field"], replacement_array(fmt, op["field"], op["texts"]))
+            return call(f)
+        if k == "setctx":
+            def f():
+                old = src.get_context("header") if (hasattr(src, "has_context") and src.has_context("header")) else ""
+                old = old if isinstance(old, str) else ""
+                lines = [ln for ln in old.split("\n") if ln]
+                marker = "@CO\tset by bnpsim" if fmt.header == "sam" else "##source=set_by_bnpsim"
+                new = "\n".join(lines[:-1] + [marker] + lines[-1:]) + "\n" if lines else marker + "\n"
+                src.set_context("header", new)
             return call(f)
         if k == "get":
             return call(lambda: plain(getattr(src, op["field"])))
